@@ -78,6 +78,11 @@ pub fn enum_anon(_seed: u64) -> Vec<String> {
         (f(atom("b"), Anonymous), f(Anonymous, atom("c"))),
         (SComplex(vec![atom("p"), Anonymous]), SComplex(vec![atom("p"), atom("b")])),
         (SComplex(vec![atom("p"), f(Anonymous, atom("a"))]), SComplex(vec![atom("p"), f(var(3, "$Z"), Anonymous)])),
+        // lists: elements and tails that match only through $_
+        (mk_list(&[Anonymous, atom("b")], None), mk_list(&[atom("a"), Anonymous], None)),
+        (mk_list(&[atom("a")], Some(Anonymous)), mk_list(&[atom("a"), atom("b"), atom("c")], None)),
+        (mk_list(&[Anonymous], Some(Anonymous)), mk_list(&[atom("a")], Some(var(3, "$Z")))),
+        (mk_list(&[f(Anonymous, Anonymous)], None), mk_list(&[f(atom("a"), atom("b"))], None)),
     ];
     for ss in prior_sets() { for (a, b) in &nested {
         out.push(format!("ss={};a={};b={}", ser_ss(&ss), ser(a), ser(b)));
